@@ -1,34 +1,39 @@
 #!/usr/bin/env python3
-# Regenerates MANIFEST.json from the table below (kept in one place so it stays valid).
-import json, os
+# Regenerates MANIFEST.json from the fragments manifest.d/<ID>.json (keys: text, note,
+# technique, design). A property without a fragment is listed under not_applicable with
+# the reason in manifest.d/<ID>.na (one line) or the default "under construction" text.
+import json, os, glob
 V = os.path.dirname(os.path.dirname(os.path.abspath(__file__)))
 ALL = ["C%02d" % i for i in range(1, 21)]
-CLAIMED = {
- "C14": dict(
-   text="Coq theorems over an executable Gallina transcription of sortx.Search (all counts < 2^63, all predicates consistent with a sorted list: result = first match or complement of insertion point, probes valid, <= ceil(log2(n+1)) less-probes, 64-bit midpoint exact), tied to /repo on every run by a differential correspondence check (exhaustive small scopes + boundary-biased large sizes + concrete lists) between the real function, the extracted model and vm_compute.",
-   note="Trusted: Coq kernel, extraction (ExtrOcamlBasic only), OCaml/Go/Python glue. Modelled: Go int as 64-bit two's complement; predicates as total boolean functions.",
-   technique="Coq proof of executable model + differential correspondence with the Go code", design="5 C14"),
-}
-PENDING_REASON = "check under construction in this session; not claimed until its Coq model, theorems and correspondence run green"
+PENDING_REASON = "check under construction; not claimed until its Coq model, theorems and correspondence run green on the unchanged tree"
 def main():
+    claimed = {}
+    for f in sorted(glob.glob(os.path.join(V, "manifest.d", "C*.json"))):
+        claimed[os.path.basename(f)[:-5]] = json.load(open(f))
     checks = []
     for pid in ALL:
-        if pid in CLAIMED:
-            c = CLAIMED[pid]
+        if pid in claimed:
+            c = claimed[pid]
             checks.append(dict(property_id=pid, quick_cmd="./check %s quick" % pid, thorough_cmd="./check %s thorough" % pid,
                 evidence_file="evidence/%s.json" % pid, replay_cmd_template="./check %s --replay {path}" % pid,
                 engine="coq-model-correspondence",
                 level_claimed=dict(category="proof", text=c["text"], design_ref="DESIGN.md section " + c["design"]),
                 level_note=c["note"], technique=c["technique"]))
+    na = []
+    for p in ALL:
+        if p in claimed:
+            continue
+        f = os.path.join(V, "manifest.d", p + ".na")
+        na.append(dict(property_id=p, reason=(open(f).read().strip() if os.path.exists(f) else PENDING_REASON)))
     m = dict(version=1, setup_cmd="./check setup",
       hooks=dict(guard="verif", enable="go build -tags verif (harness module replaces github.com/lixianmin/got => /repo)",
                  baseline_off_cmd="cd /repo && go test -json -vet=off -count=1 -timeout 25m ./...",
                  source_commits=[], add_only=True),
-      engines=[dict(name="coq-model-correspondence", path="check", serves_properties=sorted(CLAIMED),
+      engines=[dict(name="coq-model-correspondence", path="check", serves_properties=sorted(claimed),
                     kind_free_text="Coq 8.16 theorems about hand-written executable Gallina models (coq/), extracted to OCaml (ocaml/) and run against the real Go code (harness/) on the same inputs/schedules; python driver vlib/")],
       checks=checks,
       notes="See DESIGN.md. known_findings.txt lists open/fixed findings.",
-      not_applicable=[dict(property_id=p, reason=PENDING_REASON) for p in ALL if p not in CLAIMED])
+      not_applicable=na)
     hooks_file = os.path.join(V, "tools", "hook_commits.txt")
     if os.path.exists(hooks_file):
         m["hooks"]["source_commits"] = [l.strip() for l in open(hooks_file) if l.strip()]
